@@ -269,6 +269,12 @@ class Predicates(PredicatesBase, qset[Predicate]):
         # mismatch.
         get = self._lookup.get
         conflicts: dict[Predicate, Predicate]|None = None
+        # Arriving predicates must not conflict with each other either.
+        coords: dict[tuple, Predicate] = {}
+        for pred in arriving:
+            prior = coords.setdefault(pred.bicoords, pred)
+            if prior != pred:
+                raise Emsg.ValueConflictFor(pred, pred.spec, prior.spec)
         for pred in arriving:
             for prior in filter(None, map(get, pred.refs)):
                 if prior != pred:
